@@ -8,6 +8,7 @@ package main
 
 import (
 	"go/ast"
+	"go/token"
 	"path/filepath"
 )
 
@@ -58,6 +59,36 @@ func genGates(repo string) string {
 				wrap = fl.Body.List
 			})
 			g.skel("trailingslash_wrap", "the handler `trailingslash.Wrap` returns", p, wrap)
+			// the Policy constants in declaration order (iota: the position is the value)
+			var pol []string
+			g.guard("trailingslash.Policy", func() {
+				for _, f := range p.files {
+					for _, d := range f.Decls {
+						gd, ok := d.(*ast.GenDecl)
+						if !ok || gd.Tok != token.CONST || len(gd.Specs) == 0 {
+							continue
+						}
+						first, ok := gd.Specs[0].(*ast.ValueSpec)
+						if !ok || first.Type == nil || src(first.Type) != "Policy" {
+							continue
+						}
+						if len(first.Values) != 1 || src(first.Values[0]) != "iota" {
+							mwFail(first, "the Policy constants are not a plain iota block")
+						}
+						for _, sp := range gd.Specs {
+							vs := sp.(*ast.ValueSpec)
+							if len(vs.Names) != 1 || (sp != gd.Specs[0] && (vs.Type != nil || len(vs.Values) != 0)) {
+								mwFail(vs, "the Policy constants are not a plain iota block")
+							}
+							pol = append(pol, vs.Names[0].Name)
+						}
+					}
+				}
+				if pol == nil {
+					mwFail(nil, "no const block of type Policy")
+				}
+			})
+			g.strList("trailingslash_policies", "the `Policy` constants in declaration order (iota)", pol)
 			for _, f := range []string{"redirect308", "redirect308HTTP", "redirectLocation"} {
 				var body []ast.Stmt
 				g.guard(f, func() { body = p.fn("", f).Body.List })
